@@ -322,6 +322,8 @@ def _evaluate(ctx, scn, ev):
         final_stack = list(final[0][0])
     elif ref.probes[ref.L] is not None:
         final_stack = [x for x in ref.probes[ref.L].get("stack", "").split(",")[:-1]]
+        if any(x.startswith("#") for x in final_stack):
+            final_stack = None      # the probe abbreviates items over 64 bytes: no expectation for stdout from it
     if ref.finished and ref.fail is None:
         # clause 2
         want = expected_stdout(final_stack) if final_stack is not None else None
